@@ -849,6 +849,42 @@ func genC17(w *bufio.Writer, r *rng, thorough bool) {
 		emit(w, "pt.fromx %s 1", be32(v))
 		emit(w, "pt.fromx %s 0", be32(v))
 	}
+	// sign selection on roots close to the middle of the field: y = (p-1)/2 + k and (p+1)/2 - k share their
+	// upper 192 / 128 / 64 bits with p - y, so the choice between y and -y is decided by the low limbs only.
+	// x is recovered from y through the curve equation x^2 = (1 - y^2) / (a - d y^2).
+	half := new(big.Int).Rsh(sub(pMod, 1), 1)
+	var ks []*big.Int
+	nk := int64(40)
+	if thorough {
+		nk = 400
+	}
+	for k := int64(1); k <= nk; k++ {
+		ks = append(ks, big.NewInt(k))
+	}
+	for _, sh := range []uint{31, 32, 63, 64, 65, 127, 128, 129, 191, 192} {
+		for d := int64(-2); d <= 2; d++ {
+			ks = append(ks, add(pow2(sh), d))
+		}
+		for i := 0; i < 6; i++ {
+			ks = append(ks, new(big.Int).Rsh(r.big256(), 256-sh))
+		}
+	}
+	for _, k := range ks {
+		for _, y := range []*big.Int{new(big.Int).Add(half, k), new(big.Int).Sub(add(half, 1), k)} {
+			yy := mulm(y, y)
+			den := subm(curveA, mulm(curveD, yy))
+			if den.Sign() == 0 {
+				continue
+			}
+			xx := mulm(subm(bigOne, yy), new(big.Int).ModInverse(den, pMod))
+			x := new(big.Int).ModSqrt(xx, pMod)
+			if x == nil {
+				continue
+			}
+			emit(w, "pt.fromx %s 1", be32(x))
+			emit(w, "pt.fromx %s 0", be32(x))
+		}
+	}
 }
 
 // ---------------------------------------------------------------- C07 / C08 / C11 / C19
@@ -1305,6 +1341,33 @@ func genC05(w *bufio.Writer, r *rng, thorough bool) {
 		var items []string
 		for i := 0; i < n; i++ {
 			items = append(items, r.scalar())
+		}
+		emit(w, "commit x%s", strings.Join(items, ","))
+	}
+	// dense vectors with zero stretches: aligned blocks of 8/16/32/64 zero coefficients at the start, in the
+	// middle and at the end of an otherwise dense vector (a batched / parallel MSM must treat a batch with
+	// no contribution as the identity, not as the zero value)
+	holes := [][3]int{{256, 128, 256}, {256, 64, 96}, {130, 0, 32}, {256, 32, 64}, {200, 96, 160}, {256, 0, 64}, {256, 240, 256}, {192, 16, 48}}
+	if thorough {
+		for i := 0; i < 40; i++ {
+			n := 64 + r.intn(193)
+			bl := []int{8, 16, 32, 64}[r.intn(4)]
+			a := bl * r.intn(n/bl)
+			b := a + bl*(1+r.intn(3))
+			if b > n {
+				b = n
+			}
+			holes = append(holes, [3]int{n, a, b})
+		}
+	}
+	for _, h := range holes {
+		var items []string
+		for i := 0; i < h[0]; i++ {
+			if i >= h[1] && i < h[2] {
+				items = append(items, be32(big.NewInt(0)))
+			} else {
+				items = append(items, r.scalar())
+			}
 		}
 		emit(w, "commit x%s", strings.Join(items, ","))
 	}
@@ -2136,6 +2199,15 @@ func genMixed(w *bufio.Writer, r *rng, thorough bool, concurrent bool) {
 		// openings at points inside the domain, side by side (the unit vector b = e_z of each is its own)
 		for i := 0; i < 32; i++ {
 			emit(w, "ipa %s %s %s", labelHex("c"), polyDesc(r), be32(big.NewInt(int64((i*37+r.intn(7))%256))))
+		}
+		// a burst of proofs with many openings spread over several evaluation points, issued back to back so
+		// that their aggregation phases overlap (per-call scratch tables must not be shared between calls)
+		burst := 12
+		if thorough {
+			burst = 48
+		}
+		for i := 0; i < burst; i++ {
+			emit(w, "mp %s %s", labelHex("c"), openingSet(r, 16+r.intn(9), []int{1, 5, 4}[i%3], 1))
 		}
 		// more openings than CPUs, fewer MSM tasks than CPUs
 		emit(w, "mp %s %s", labelHex("c"), openingSet(r, 17, 1, 0))
